@@ -132,14 +132,16 @@ pub fn parallel_parse(
                 parse_dir_entry(parse_context, language_type, &dir_entry)
                     .with_context(|| format!("Parsing failed: {:?}", dir_entry.path()))
             });
+            // The collector stops listening after the first error it receives: a
+            // failed send means another file already failed, so stop walking too.
             match result {
-                Ok(Some(parsed_data)) => {
-                    tx.send(Ok(parsed_data)).unwrap();
-                    WalkState::Continue
-                }
+                Ok(Some(parsed_data)) => match tx.send(Ok(parsed_data)) {
+                    Ok(()) => WalkState::Continue,
+                    Err(_) => WalkState::Quit,
+                },
                 Ok(None) => WalkState::Continue,
                 Err(err) => {
-                    tx.send(Err(err)).unwrap();
+                    let _ = tx.send(Err(err));
                     WalkState::Quit
                 }
             }
